@@ -1117,7 +1117,8 @@ where
         }
         if quiescent {
             for (n, f, c) in &self.notified {
-                let closed = self.conns[*c].sw.iter().any(|s| s == "Closed");
+                // closed, or being closed (its muxer was asked to close and keeps that pending)
+                let closed = self.conns[*c].sw.iter().any(|s| s == "Closed") || self.mux_of(*c).map(|m| m.lock().unwrap().close_polled > 0).unwrap_or(false);
                 let echoed = self.full_log.iter().any(|e| matches!(e, LogEv::FromHandler { n: m, .. } if *m == n + 1000));
                 if !echoed && !closed {
                     return Err(format!("handler-event-lost :: event {n} of field {f} on live connection c{c} never came back"));
